@@ -144,3 +144,16 @@ Lemma binop_lit_ok_inst : binop_lit_ok binop_impl.
 Proof. split; intros; reflexivity. Qed.
 Lemma binop_lit_ok_all : forall o, binop_lit_ok (binop_all o).
 Proof. intros o. split; intros; reflexivity. Qed.
+
+(* the same record-entry step when evaluating the value expression moves the configuration *)
+Lemma key_entry_evaluates_cfg release binop_impl apply : binop_lit_ok binop_impl ->
+  forall k e x c c1 acc r,
+    evalE release binop_impl apply c e = (Ok x, c1) ->
+    evalRecL (evalE release binop_impl apply) c acc (Cm [] (REntry (key_to_rkey k) e) None :: r) =
+    evalRecL (evalE release binop_impl apply) c1 (rec_insert acc k x) r.
+Proof.
+  intros Hops k e x c c1 acc r H. unfold key_to_rkey. destruct (both_quotes k) eqn:B.
+  - cbn [evalRecL]. rewrite (lit_both_quote_evaluates release binop_impl apply Hops k c).
+    cbn [as_string]. rewrite H. reflexivity.
+  - cbn [evalRecL]. rewrite H. reflexivity.
+Qed.
